@@ -93,11 +93,12 @@ corruption (or returns the original message, when the byte only carries bits the
 base64 decoder ignores) — except for the three situations named in the guard:
   * `v` = '#' in first position: the finding above (`corruption_counterexample`);
   * `v` = CR: Go's base64 decoder silently drops CR, so one character disappears and
-    every later bit shifts by six — an error pattern for which a 32-bit CRC gives no
-    guarantee (NOT PROVED; a collision would need a crafted payload);
+    every later bit shifts by six — an error pattern for which a 32-bit CRC alone gives
+    no guarantee (see `corruption_cr_partial` for what IS proved about it);
   * another ALPHABET character at position 5, the one character whose six bits
     straddle the stored CRC (low 2 bits) and the payload (top 4 bits of its first
-    byte): the damage then touches both sides of the comparison (NOT PROVED).
+    byte): the damage then touches both sides of the comparison (proved only with the
+    length-prefix check, see `corruption_sized_partial`).
 Everything else is covered: a byte outside the alphabet makes the text undecodable;
 another alphabet character changes at most two adjacent decoded bytes, either inside
 the stored CRC (then it no longer matches the intact payload) or inside the payload
@@ -176,6 +177,26 @@ theorem corrupted_log_sized_partial (cfg : Cfg) (hsz : ∀ q, cfg.bodyOK q = tru
 example : (∀ q, (⟨1000, sizedOK⟩ : Cfg).bodyOK q = true → sizedOK q = true) ∧
     GoodPayload ⟨1000, sizedOK⟩ [3, 1, 2, 3] ∧ (5 : Nat) < (msgText [3, 1, 2, 3]).length :=
   ⟨fun _ h => h, ⟨by decide, by decide, by decide⟩, by decide⟩
+
+/-- Partial result 1″ (CR): a character replaced by CR far enough into the line that it
+lies behind the payload's length prefix (`n` prefix bytes: `4 + n ≤ 3·⌊i/4⌋`, i.e. from
+position 8 on for payloads shorter than 128 bytes) is reported as corruption: Go's base64
+decoder drops the CR, the payload comes out one byte short but still announces its old
+length, and amino's length-prefix check (`hsz`) rejects it.
+STILL MISSING for `corruption_statement` besides the finding: CR within the first
+`⌈4(4+n)/3⌉` characters (the dropped character then shifts the stored CRC and the length
+prefix themselves; excluding an accepted altered message there would need more than a
+32-bit CRC can promise). -/
+theorem corruption_cr_partial (cfg : Cfg) (hsz : ∀ q, cfg.bodyOK q = true → sizedOK q = true)
+    (p : Bytes) (g : GoodPayload cfg p) (i : Nat) (hi : i < (msgText p).length)
+    (v n : Nat) (hu : uvarint p = some (v, n)) (hpos : 4 + n ≤ 3 * (i / 4)) :
+    readLine cfg ((msgText p).set i 13) = .corrupt :=
+  readLine_set_cr cfg hsz p g i hi v n hu hpos
+
+/-- the guard is satisfiable: payload `03 01 02 03` (prefix length 1), CR at position 8 -/
+example : GoodPayload ⟨1000, sizedOK⟩ [3, 1, 2, 3] ∧ (8 : Nat) < (msgText [3, 1, 2, 3]).length ∧
+    uvarint [3, 1, 2, 3] = some (3, 1) ∧ 4 + 1 ≤ 3 * (8 / 4) := by
+  refine ⟨⟨by decide, by decide, by decide⟩, by decide, by decide, by decide⟩
 
 /-- Partial result 2: whatever bytes a line consists of, if the reader accepts it as
 message `p'` then the line base64-decodes to `crc ‖ p'` with `crc = crc32c p'`, `p'`
